@@ -167,7 +167,10 @@ fn stream(input: &[u8]) {
     if input.len() < 4 {
         return;
     }
-    let n = 1 + (input[0] % 4) as usize;
+    // a repeat factor lets a short input describe a stream of hundreds of
+    // kilobytes (size thresholds in buffering code)
+    let rep = [1usize, 1, 1, 8, 64, 300][(input[0] / 4 % 6) as usize];
+    let n = (1 + (input[0] % 4) as usize) * rep;
     let sizes = &input[1..4];
     let text = String::from_utf8_lossy(&input[4..]);
     let mut vals = text.split(['\n', '\r']).map(|v| v.to_string()).collect::<Vec<_>>();
@@ -205,7 +208,7 @@ fn stream(input: &[u8]) {
     while pos < bytes.len() {
         let sel = sizes[j % 3] as usize;
         j += 1;
-        let len = (1 + sel * sel / 64).min(bytes.len() - pos);
+        let len = ((1 + sel * sel / 64) * if rep > 1 { rep * 40 } else { 1 }).min(bytes.len() - pos);
         match st.write(&bytes[pos..pos + len]) {
             Ok(l) if l == len => {}
             other => panic!("ORACLE C09: write of {len} bytes at offset {pos} returned {other:?}"),
@@ -303,7 +306,24 @@ fn digests(input: &[u8]) {
     }
     let d = [Digest::BLAKE2s, Digest::MD5, Digest::RMD160, Digest::SHA1, Digest::SHA256, Digest::SHA512][(input[0] % 6) as usize];
     let sizes = &input[1..5];
-    let data = &input[5..];
+    // repeat factor: boundaries at 8 KiB / 64 KiB / 128 KiB become reachable
+    let rep = [1usize, 1, 1, 7, 50, 400][(input[0] / 6 % 6) as usize];
+    let repeated: Vec<u8>;
+    let data: &[u8] = if rep == 1 {
+        &input[5..]
+    } else {
+        // the first line is repeated, the rest follows once: long lines and
+        // late markers
+        let body = &input[5..];
+        let cut = body.iter().position(|c| *c == b'\n').unwrap_or(body.len());
+        let mut v = Vec::with_capacity(cut * rep + body.len());
+        for _ in 0..rep {
+            v.extend_from_slice(&body[..cut]);
+        }
+        v.extend_from_slice(&body[cut..]);
+        repeated = v;
+        &repeated
+    };
     let whole = d.hash_file(&mut &data[..]).unwrap_or_else(|e| panic!("ORACLE C13: hash_file failed on a slice: {e}"));
     let sched = d.hash_file(&mut Sched { data, pos: 0, sizes, k: 0 });
     if sched.as_ref().ok() != Some(&whole) {
